@@ -263,7 +263,7 @@ where
 pub(crate) struct CacheProcessor<V, U, CB, S> {
     insert_buf_rx: Receiver<Item<V>>,
     stop_rx: Receiver<()>,
-    clear_rx: Receiver<()>,
+    clear_rx: Receiver<WaitSignal>,
     metrics: Arc<Metrics>,
     store: Arc<ShardedMap<V, U, S, S>>,
     policy: Arc<AsyncLFUPolicy<S>>,
@@ -380,7 +380,7 @@ pub struct AsyncCache<
 
     pub(crate) stop_tx: Sender<()>,
 
-    pub(crate) clear_tx: Sender<()>,
+    pub(crate) clear_tx: Sender<WaitSignal>,
 
     pub(crate) callback: Arc<CB>,
 
@@ -478,15 +478,18 @@ where
             return Ok(());
         }
 
-        // stop the process item thread.
-        self.clear_tx.send(()).await.map_err(|e| {
-            CacheError::SendError(format!("fail to send clear signal to working thread {}", e))
-        })?;
-
-        self.policy.clear();
-        self.store.clear();
-        self.metrics.clear();
-
+        // The processor empties the insert buffer, the policy, the store and the metrics between
+        // two items, and releases the signal when it is done (or when it discards the request
+        // on its way out): whatever is inserted after `clear` has returned is kept, and no item
+        // is applied half-way through the clear.
+        let wg = WaitGroup::new();
+        self.clear_tx
+            .send(WaitSignal(wg.add(1)))
+            .await
+            .map_err(|e| {
+                CacheError::SendError(format!("fail to send clear signal to working thread {}", e))
+            })?;
+        wg.wait().await;
         Ok(())
     }
 
@@ -672,7 +675,7 @@ where
         policy: Arc<AsyncLFUPolicy<S>>,
         insert_buf_rx: Receiver<Item<V>>,
         stop_rx: Receiver<()>,
-        clear_rx: Receiver<()>,
+        clear_rx: Receiver<WaitSignal>,
         metrics: Arc<Metrics>,
         callback: Arc<CB>,
     ) -> Self {
@@ -711,8 +714,8 @@ where
                             tracing::error!("fail to handle cleanup event, error: {}", e);
                         }
                     },
-                    _ = self.clear_rx.recv().fuse() => {
-                        if let Err(e) = CacheCleaner::new(&mut self).clean().await {
+                    msg = self.clear_rx.recv().fuse() => {
+                        if let Err(e) = self.handle_clear_event(msg).await {
                             tracing::error!("fail to handle clear event, error: {}", e);
                         }
                     },
@@ -732,7 +735,24 @@ where
         // that buffered `Wait` markers release their waiters.
         while self.insert_buf_rx.try_recv().is_ok() {}
         self.clear_rx.close();
+        while self.clear_rx.try_recv().is_ok() {}
         self.stop_rx.close();
+        Ok(())
+    }
+
+    #[inline]
+    pub(crate) async fn handle_clear_event(
+        &mut self,
+        res: Result<WaitSignal, RecvError>,
+    ) -> Result<(), CacheError> {
+        // Dropping the signal, on the error paths too, releases the caller of `clear`.
+        let _signal = res.map_err(|_| {
+            CacheError::RecvError("fail to receive msg from clear channel".to_string())
+        })?;
+        CacheCleaner::new(self).clean().await?;
+        self.policy.clear();
+        self.store.clear();
+        self.metrics.clear();
         Ok(())
     }
 
